@@ -45,7 +45,9 @@ class ClassName(str):
 
 def sanitize(value: str) -> str:
     """Removes every character that isn't 0-9, A-Z, a-z, or a known delimiter"""
-    return re.sub(rf"[^\w{DELIMITERS}]+", "", value)
+    value = re.sub(rf"[^\w{DELIMITERS}]+", "", value)
+    # `\w` also matches characters (e.g. "²" or "٣") which can never be part of a Python identifier
+    return "".join(char for char in value if char in ". _-" or f"_{char}".isidentifier())
 
 
 def split_words(value: str) -> list[str]:
